@@ -30,6 +30,7 @@ Inductive use :=
 | USpline (g : guard) (w : warg) (knots degree : zarg) (mk : bool) (dorder : zarg)  (* self._setup_spline *)
 | UWhit (g : guard) (w : warg) (dorder : zarg)                                  (* self._setup_whittaker *)
 | UWhitOpaque (what : string)  (* self._setup_whittaker under an uninterpreted condition / in a loop *)
+| UFullBasis                   (* 2-D: a read of the lazily created full basis (<pspline>.basis.basis) *)
 | UNoCache (what : string)     (* _setup_morphology / _setup_smooth / _setup_classification / _setup_misc *)
 | UOptimizer                   (* self._setup_optimizer: delegates to registered methods of the same object *)
 | UOverrideX                   (* ._override_x: fits on a NEW object *)
